@@ -43,7 +43,7 @@ Proof.
   unfold fact_ok in Hf.
   destruct (lookup pol (a_type f) (a_field f)) as [pr|]; [|discriminate].
   unfold access_ok in Hf. rewrite Hfresh in Hf.
-  destruct pr as [l|l| | |c| | |l| ]; try exact I.
+  destruct pr as [l|l| | |c| | |l| | ]; try exact I.
   - (* GuardedBy *)
     destruct (a_kind f); try discriminate;
       apply has_lock_In in Hf; exact (Hlocks _ _ Hf).
@@ -53,6 +53,7 @@ Proof.
       * left. exact (Hlocks _ _ Hf).
       * right. split; [|exact (Hlocks _ _ Hf)].
         destruct a; try discriminate; reflexivity.
+    + left. apply has_lock_In in Hf. exact (Hlocks _ _ Hf).
     + left. apply has_lock_In in Hf. exact (Hlocks _ _ Hf).
     + left. apply has_lock_In in Hf. exact (Hlocks _ _ Hf).
   - (* AtomicOnly *)
